@@ -53,13 +53,17 @@ class ParseCheck:
         s.x = x
         L = len(x)
         res = {'viol': []}
-        main = parse_summary(w, s.dev, w.parse(s.dev, s.start, list(x)), L)
+
+        def parse(inp):
+            s.cur = inp          # the input being parsed right now: the witness if this call panics or hangs
+            return w.parse(s.dev, s.start, inp)
+        main = parse_summary(w, s.dev, parse(list(x)), L)
         res['main'] = main
         if main[0] == 'ok' and main[1] < 1:
             res['viol'].append(('O1', 'accepted without consuming a byte', None))
         if s.prefixes:
             for j in range(max(1, len(s.prefix) - 1), L):
-                pre = parse_summary(w, s.dev, w.parse(s.dev, s.start, list(x[:j])), j)
+                pre = parse_summary(w, s.dev, parse(list(x[:j])), j)
                 if s.twin and main[0] == 'ok' and main[1] == j + 1 and pre != main:
                     res['viol'].append(('TWIN', 'wrong oracle: expects the result already one byte early', j))
                 if main[0] == 'ok' and main[1] == j and pre != main:
@@ -72,7 +76,7 @@ class ParseCheck:
         if s.completions and main[0] == 'incomplete':
             found = None
             for y in COMPLETIONS:
-                r2 = parse_summary(w, s.dev, w.parse(s.dev, s.start, list(x) + list(y)), L + len(y))
+                r2 = parse_summary(w, s.dev, parse(list(x) + list(y)), L + len(y))
                 if r2[0] == 'ok' and r2[1] > L:
                     found = y
                     break
@@ -94,7 +98,7 @@ class ParseCheck:
             rec['kind'] = out[0]
             viol = [(out[0].upper(), out[1], None)]
         if viol:
-            wit = model_bytes(ex.path_model(), s.x)
+            wit = model_bytes(ex.path_model(), s.x if out[0] == 'ok' else getattr(s, 'cur', s.x))
             main = out[1]['main'] if out[0] == 'ok' else None
             rec['violations'] = [{'rule': v[0], 'what': v[1], 'j': v[2], 'input': wit.hex(), 'device': s.dev, 'start': s.start or [],
                                   'role': role_of(v[0], v[2], main)} for v in viol]
